@@ -60,6 +60,7 @@ static inline void ABTI_ythread_resume_and_push(ABTI_local *p_local,
 
     /* Decrease the number of blocked threads */
     ABTI_pool_dec_num_blocked(p_pool);
+    ABTI_VERIF_EV(ABTI_VEV_NB_WHO, &p_ythread->thread, p_pool, 2);
 }
 
 static inline ABTI_ythread *
@@ -499,6 +500,7 @@ ABTI_ythread_exit(ABTI_xstream *p_local_xstream, ABTI_ythread *p_self)
              * jump to the joiner ULT.  Note that a parent ULT cannot be a
              * joiner. */
             ABTI_pool_dec_num_blocked(p_joiner->thread.p_pool);
+            ABTI_VERIF_EV(ABTI_VEV_NB_WHO, &p_joiner->thread, p_joiner->thread.p_pool, 2);
             ABTI_event_ythread_resume(ABTI_xstream_get_local(p_local_xstream),
                                       p_joiner, &p_self->thread);
             ABTI_VERIF_BEGIN();
